@@ -349,6 +349,9 @@ pub fn r_replace(s: &str) -> String {
     let c = s.replacen(|c: char| c.is_ascii_digit(), "#", 1);
     format!("{}|{}|{}|{}", a, b, c, s.replace("ab", "-"))
 }
+pub fn r_find_pats(s: &str) -> usize {
+    s.find(['a', 'z']).unwrap_or(90) + 100 * s.find('b').unwrap_or(80) + 10000 * s.find(|c: char| c.is_ascii_digit()).unwrap_or(70)
+}
 pub fn r_clone_from(s: &str) -> String {
     let mut a = String::from("old");
     let b = s.to_string();
@@ -376,6 +379,7 @@ mod probe_native {
             let s: &str = s;
             println!("PROBE\tp_find_digit\t{}\t{:?}", i, p_find_digit(s));
             println!("PROBE\tr_clone_from\t{}\t{:?}", i, r_clone_from(s));
+            println!("PROBE\tr_find_pats\t{}\t{:?}", i, r_find_pats(s));
             println!("PROBE\tr_replace\t{}\t{:?}", i, r_replace(s));
             println!("PROBE\tr_nested_closure\t{}\t{:?}", i, r_nested_closure(s));
             println!("PROBE\tr_try_from\t{}\t{:?}", i, r_try_from(s));
